@@ -797,4 +797,538 @@ theorem blank_after_comment {s : Src} {sf m1 q p1 : Nat} {raw1 : List (Option (E
             exact resourceRaw_nil h2
           · left; omega
 
+
+/-! ## joining a run of comment lines -/
+
+theorem joinComments_mkC_merge {L : Nat} (a b : List Bytes) (X : List (Option (Entry Bytes))) :
+    joinComments (some (mkC L a) :: some (mkC L b) :: X) = joinComments (some (mkC L (a ++ b)) :: X) := by
+  unfold mkC
+  split
+  · exact joinComments_comment_merge a b X
+  · exact joinComments_gc_merge a b X
+  · exact joinComments_rc_merge a b X
+
+theorem joinComments_run (s : Src) (L : Nat) (spans : List Span) : ∀ (a : List Bytes) (X : List (Option (Entry Bytes))),
+    joinComments (some (mkC L a) :: (runItems s L spans ++ X)) =
+      joinComments (some (mkC L (a ++ spans.map (spanBytes s))) :: X) := by
+  induction spans with
+  | nil => intro a X; simp [runItems]
+  | cons sp spans ih =>
+    intro a X
+    have : runItems s L (sp :: spans) ++ X = some (mkC L [spanBytes s sp]) :: (runItems s L spans ++ X) := by
+      simp [runItems]
+    rw [this, joinComments_mkC_merge, ih]
+    simp [List.append_assoc]
+
+theorem assemble_run (s : Src) (L : Nat) (sp : Span) (spans : List Span) (X : List (Option (Entry Bytes))) :
+    assemble (runItems s L (sp :: spans) ++ X) = assemble (some (mkC L ((sp :: spans).map (spanBytes s))) :: X) := by
+  have : runItems s L (sp :: spans) ++ X = some (mkC L [spanBytes s sp]) :: (runItems s L spans ++ X) := by
+    simp [runItems]
+  simp only [assemble]
+  rw [this, joinComments_run]
+  simp
+
+/-! ## the parser's tree, resolved and text-joined, entry by entry -/
+
+def jEntry (s : Src) (e : Entry Span) : Entry Bytes := (Entry.mapS (spanBytes s) e).joinText
+
+theorem jRes_eq (s : Src) (t : Resource Span) : Resource.joinText (resolve s t) = t.map (jEntry s) := by
+  simp [Resource.joinText, resolve, jEntry, List.map_map, Function.comp_def]
+
+theorem jAttrs_eq (s : Src) (l : List (Attribute Span)) :
+    (l.map (Attribute.mapS (spanBytes s))).map Attribute.joinText = jAttrs s l := by
+  simp [jAttrs, jAttr, jPat, List.map_map, Function.comp_def, Attribute.mapS, Attribute.joinText]
+
+theorem jEntry_message (s : Src) (m : Message Span) : jEntry s (.message m) = .message (jMsg s m) := by
+  simp only [jEntry, Entry.mapS, Entry.joinText, jMsg, jAttrs_eq]
+  congr 2
+  cases m.value <;> simp [jPat]
+
+theorem jEntry_term (s : Src) (t : Term Span) : jEntry s (.term t) = .term (jTerm s t) := by
+  simp only [jEntry, Entry.mapS, Entry.joinText, jTerm, jAttrs_eq]
+  rfl
+
+theorem jEntry_comment (s : Src) (c : List Span) : jEntry s (.comment c) = .comment (c.map (spanBytes s)) := rfl
+theorem jEntry_groupComment (s : Src) (c : List Span) : jEntry s (.groupComment c) = .groupComment (c.map (spanBytes s)) := rfl
+theorem jEntry_resourceComment (s : Src) (c : List Span) :
+    jEntry s (.resourceComment c) = .resourceComment (c.map (spanBytes s)) := rfl
+
+theorem jMsg_comment (s : Src) (m : Message Span) (c : List Span) :
+    jMsg s { m with comment := some c } = { jMsg s m with comment := some (c.map (spanBytes s)) } := rfl
+theorem jTerm_comment (s : Src) (t : Term Span) (c : List Span) :
+    jTerm s { t with comment := some c } = { jTerm s t with comment := some (c.map (spanBytes s)) } := rfl
+
+/-! ## one round of `Parser::parse`'s loop -/
+
+theorem step_none_entry {s : Src} {pf n p q cnt : Nat} {body : List (Entry Span)} {errors : List PErr} {e : Entry Span}
+    (hlt : p < s.size) (hge : getEntry s pf p = .ok e q) (hne : ∀ c, e ≠ .comment c) :
+    parseLoop s pf (n + 1) body errors none cnt p =
+      parseLoop s pf n (body ++ [e]) errors none (skipBlankBlock s q).2 (skipBlankBlock s q).1 := by
+  cases e with
+  | comment c => exact absurd rfl (hne c)
+  | _ => simp only [parseLoop, hlt, if_true, hge]
+
+theorem step_none_comment {s : Src} {pf n p q cnt : Nat} {body : List (Entry Span)} {errors : List PErr} {c : List Span}
+    (hlt : p < s.size) (hge : getEntry s pf p = .ok (.comment c) q) :
+    parseLoop s pf (n + 1) body errors none cnt p =
+      parseLoop s pf n body errors (some c) (skipBlankBlock s q).2 (skipBlankBlock s q).1 := by
+  simp only [parseLoop, hlt, if_true, hge]
+
+theorem step_attach_message {s : Src} {pf n p q cnt : Nat} {body : List (Entry Span)} {errors : List PErr} {c : List Span}
+    {m : Message Span} (hlt : p < s.size) (hge : getEntry s pf p = .ok (.message m) q) (hc : cnt < 2) :
+    parseLoop s pf (n + 1) body errors (some c) cnt p =
+      parseLoop s pf n (body ++ [.message { m with comment := some c }]) errors none
+        (skipBlankBlock s q).2 (skipBlankBlock s q).1 := by
+  simp only [parseLoop, hlt, if_true, hge, hc]
+
+theorem step_attach_term {s : Src} {pf n p q cnt : Nat} {body : List (Entry Span)} {errors : List PErr} {c : List Span}
+    {t : Term Span} (hlt : p < s.size) (hge : getEntry s pf p = .ok (.term t) q) (hc : cnt < 2) :
+    parseLoop s pf (n + 1) body errors (some c) cnt p =
+      parseLoop s pf n (body ++ [.term { t with comment := some c }]) errors none
+        (skipBlankBlock s q).2 (skipBlankBlock s q).1 := by
+  simp only [parseLoop, hlt, if_true, hge, hc]
+
+/-- a pending comment that does not attach is emitted as a stand-alone comment -/
+theorem step_flush {s : Src} {pf n p cnt : Nat} {body : List (Entry Span)} {errors : List PErr} {c : List Span}
+    (hlt : p < s.size)
+    (h1 : ∀ m q, getEntry s pf p = .ok (.message m) q → 2 ≤ cnt)
+    (h2 : ∀ t q, getEntry s pf p = .ok (.term t) q → 2 ≤ cnt) :
+    parseLoop s pf (n + 1) body errors (some c) cnt p =
+      parseLoop s pf (n + 1) (body ++ [.comment c]) errors none cnt p := by
+  simp only [parseLoop, hlt, if_true]
+  cases hge : getEntry s pf p with
+  | ok e q =>
+    cases e with
+    | message m =>
+      have : ¬ cnt < 2 := by have := h1 m q hge; omega
+      simp only [this, if_false]
+    | term t =>
+      have : ¬ cnt < 2 := by have := h2 t q hge; omega
+      simp only [this, if_false]
+    | _ => rfl
+  | err e q => rfl
+  | panic m => rfl
+  | fuel => rfl
+
+theorem step_end {s : Src} {pf n p cnt : Nat} {body : List (Entry Span)} {errors : List PErr} (lc : Option (List Span))
+    (hge : s.size ≤ p) :
+    parseLoop s pf (n + 1) body errors lc cnt p =
+      .done (match lc with | some c => body ++ [.comment c] | none => body, errors) := by
+  have : ¬ p < s.size := by omega
+  simp only [parseLoop, this, if_false]
+  cases lc <;> rfl
+
+
+/-! ## `get_entry` -/
+
+def mkCS : Nat → List Span → Entry Span
+  | 1, c => .comment c
+  | 2, c => .groupComment c
+  | _, c => .resourceComment c
+
+theorem getEntry_message {s : Src} {pf p q : Nat} {b : UInt8} {m : Message Span} (hb : s[p]? = some b)
+    (ha : isAlphaC b = true) (h : getMessage s pf p p = .ok m q) : getEntry s pf p = .ok (.message m) q := by
+  unfold getEntry
+  split
+  · rename_i h35; rw [hb] at h35; injection h35 with h35; subst h35; simp [isAlphaC] at ha
+  · rename_i h45; rw [hb] at h45; injection h45 with h45; subst h45; simp [isAlphaC] at ha
+  · rw [h]
+
+theorem getEntry_term {s : Src} {pf p q : Nat} {t : Term Span} (hb : s[p]? = some 45)
+    (h : getTerm s pf p p = .ok t q) : getEntry s pf p = .ok (.term t) q := by
+  unfold getEntry
+  split
+  · rename_i h35; rw [hb] at h35; cases h35
+  · rw [h]
+  · rename_i h1 h2; exact absurd hb h2
+
+theorem getEntry_comment {s : Src} {pf p q L : Nat} {c : List Span} (hb : s[p]? = some 35)
+    (h : getComment s p = .ok (c, L) q) (hL : L = 1 ∨ L = 2 ∨ L = 3) : getEntry s pf p = .ok (mkCS L c) q := by
+  unfold getEntry
+  split
+  · rw [h]
+    rcases hL with e | e | e <;> subst e <;> simp [mkCS]
+  · rename_i h45; rw [hb] at h45; cases h45
+  · rename_i h1 h2; exact absurd hb h1
+
+theorem getEntry_hash {s : Src} {pf p : Nat} (hb : s[p]? = some 35) :
+    (∀ m q, getEntry s pf p ≠ .ok (.message m) q) ∧ (∀ t q, getEntry s pf p ≠ .ok (.term t) q) := by
+  have key : ∀ e q, getEntry s pf p = .ok e q → (∃ c, e = .comment c) ∨ (∃ c, e = .groupComment c) ∨ (∃ c, e = .resourceComment c) := by
+    intro e q h
+    unfold getEntry at h
+    split at h
+    · split at h
+      · rename_i content level q' hc
+        split at h
+        · injection h with h _; exact Or.inl ⟨_, h.symm⟩
+        · split at h
+          · injection h with h _; exact Or.inr (Or.inl ⟨_, h.symm⟩)
+          · split at h
+            · injection h with h _; exact Or.inr (Or.inr ⟨_, h.symm⟩)
+            · cases h
+      all_goals cases h
+    · rename_i h45; rw [hb] at h45; cases h45
+    · rename_i h1 h2; exact absurd hb h1
+  constructor
+  · intro m q h
+    rcases key _ _ h with ⟨c, e⟩ | ⟨c, e⟩ | ⟨c, e⟩ <;> cases e
+  · intro t q h
+    rcases key _ _ h with ⟨c, e⟩ | ⟨c, e⟩ | ⟨c, e⟩ <;> cases e
+
+theorem assemble_skip {raw1 raw2 : List (Option (Entry Bytes))} (h : raw1 = raw2 ∨ raw1 = none :: raw2) :
+    assemble raw1 = assemble raw2 := by
+  rcases h with h | h
+  · rw [h]
+  · rw [h, assemble_none]
+
+/-- a `Message` entry of a junk-free source: `get_entry` returns it, leaves the cursor at the start of the next
+non-blank line, and the grammar goes on from there (less a blank block, which does not matter to the tree) -/
+theorem entry_message_ref {s : Src} (hs : AsciiThenBoundary s) (hSurv : Surv s) {sf pf p m1 : Nat} {msg : Message Bytes}
+    {r4 r5 : List UInt8} {raw1 : List (Option (Entry Bytes))}
+    (h : messageP sf (rest s p) = .ok msg r4) (hl : lineEnd r4 = some r5) (h5 : resourceRaw sf m1 r5 = some raw1)
+    (hj : hasJunk raw1 = false) (hp : p ≤ s.size) (hpf : 4 * s.size + 2 ≤ pf) :
+    ∃ m' q raw2 m2, getEntry s pf p = .ok (.message m') q ∧ jMsg s m' = msg ∧ p < q ∧ q ≤ s.size ∧
+      (skipBlankBlock s q).1 = q ∧ resourceRaw sf m2 (rest s q) = some raw2 ∧ hasJunk raw2 = false ∧
+      Canon (rest s q) ∧ assemble raw1 = assemble raw2 := by
+  obtain ⟨m', q, g1, g2, g3, g4, _, g6⟩ :=
+    message_ref hs hSurv (pf := pf) (es := p) h (follow_of_raw hl h5 hj) hp (by omega)
+  obtain ⟨b, t, e1, e2⟩ := messageP_head h
+  have hb := rest_head e1
+  have hX : afterBlank r4 = afterBlank r5 := afterBlank_lineEnd hl
+  have hcan : Canon (rest s q) := by rw [g3]; exact canon_afterBlank _
+  obtain ⟨raw2, m2, _, h2, hcase⟩ := raw_skip_blank h5
+  rw [← hX, ← g3] at h2
+  have hj2 : hasJunk raw2 = false := by
+    rcases hcase with ⟨e, _⟩ | ⟨e, _⟩
+    · rw [← e]; exact hj
+    · rw [e] at hj; exact hasJunk_tail hj
+  refine ⟨m', q, raw2, m2, getEntry_message hb e2 g1, g2, g6, g4, skipBlankBlock_stay g4 hcan, h2, hj2, hcan, ?_⟩
+  exact assemble_skip (by rcases hcase with ⟨e, _⟩ | ⟨e, _⟩ <;> simp [e])
+
+theorem entry_term_ref {s : Src} (hs : AsciiThenBoundary s) (hSurv : Surv s) {sf pf p m1 : Nat} {trm : Term Bytes}
+    {r4 r5 : List UInt8} {raw1 : List (Option (Entry Bytes))}
+    (h : termP sf (rest s p) = .ok trm r4) (hl : lineEnd r4 = some r5) (h5 : resourceRaw sf m1 r5 = some raw1)
+    (hj : hasJunk raw1 = false) (hp : p ≤ s.size) (hpf : 4 * s.size + 2 ≤ pf) :
+    ∃ t' q raw2 m2, getEntry s pf p = .ok (.term t') q ∧ jTerm s t' = trm ∧ p < q ∧ q ≤ s.size ∧
+      (skipBlankBlock s q).1 = q ∧ resourceRaw sf m2 (rest s q) = some raw2 ∧ hasJunk raw2 = false ∧
+      Canon (rest s q) ∧ assemble raw1 = assemble raw2 := by
+  obtain ⟨t', q, g1, g2, g3, g4, _, g6⟩ :=
+    term_ref hs hSurv (pf := pf) (es := p) h (follow_of_raw hl h5 hj) hp (by omega)
+  obtain ⟨t, e1⟩ := termP_head h
+  have hb := rest_head e1
+  have hX : afterBlank r4 = afterBlank r5 := afterBlank_lineEnd hl
+  have hcan : Canon (rest s q) := by rw [g3]; exact canon_afterBlank _
+  obtain ⟨raw2, m2, _, h2, hcase⟩ := raw_skip_blank h5
+  rw [← hX, ← g3] at h2
+  have hj2 : hasJunk raw2 = false := by
+    rcases hcase with ⟨e, _⟩ | ⟨e, _⟩
+    · rw [← e]; exact hj
+    · rw [e] at hj; exact hasJunk_tail hj
+  refine ⟨t', q, raw2, m2, getEntry_term hb g1, g2, g6, g4, skipBlankBlock_stay g4 hcan, h2, hj2, hcan, ?_⟩
+  exact assemble_skip (by rcases hcase with ⟨e, _⟩ | ⟨e, _⟩ <;> simp [e])
+
+
+/-! ## the resource loop -/
+
+theorem canon_cons_blank {b : UInt8} {t : List UInt8} (h : Canon (b :: t)) : blankBlock (b :: t) = none := by
+  rcases h with h | h
+  · cases h
+  · exact blankBlock_none_of_nonBlankHead h
+
+theorem rest_cons_of_lt {s : Src} {p : Nat} (h : p < s.size) : ∃ b, s[p]? = some b ∧ rest s p = b :: rest s (p + 1) := by
+  rcases rest_cases s p with ⟨h1, _⟩ | h1
+  · have : s.size ≤ p := by simpa using h1
+    omega
+  · exact h1
+
+theorem attachHead_mkC (l : Nat) (c : List Bytes) (X : List (Option (Entry Bytes))) : attachHead (some (mkC l c) :: X) = false := by
+  unfold mkC; split <;> rfl
+
+/-- **T3, the resource loop.**  From the start `p` of a non-blank line of a junk-free source (the grammar's raw item
+list from there is `raw`), `Parser::parse`'s loop — with no pending comment — finishes without an error and appends
+exactly the entries `assemble raw`: comment lines joined by level, `#` comments attached to the Message/Term that
+follows without a blank line, blank blocks dropped. -/
+theorem resource_loop {s : Src} (hs : AsciiThenBoundary s) (hSurv : Surv s) {sf pf : Nat} (hpf : 4 * s.size + 2 ≤ pf) :
+    ∀ (N m p : Nat) (raw : List (Option (Entry Bytes))) (body : List (Entry Span)) (cnt : Nat),
+      resourceRaw sf m (rest s p) = some raw → hasJunk raw = false → Canon (rest s p) → p ≤ s.size →
+      s.size - p + 1 ≤ N →
+      ∃ out, parseLoop s pf N body [] none cnt p = .done (body ++ out, []) ∧ out.map (jEntry s) = assemble raw := by
+  intro N
+  induction N using Nat.strongRecOn with
+  | ind N ih =>
+    intro m p raw body cnt hraw hj hcan hp hN
+    cases N with
+    | zero => omega
+    | succ N =>
+      by_cases hlt : p < s.size
+      · obtain ⟨b, hb, hrest⟩ := rest_cons_of_lt hlt
+        have hraw0 := hraw
+        rw [hrest] at hraw hcan
+        obtain ⟨m', e, r5, raw1, em, he, eraw, h5, hj1⟩ := raw_entry_inv hraw (canon_cons_blank hcan) hj
+        rw [← hrest] at he
+        rcases entryP_inv he with ⟨msg, r4, h1, hl, ee⟩ | ⟨trm, r4, h1, hl, ee⟩ | ⟨l, c, h1, ee⟩
+        · -- a Message
+          obtain ⟨m2', q, raw2, m2, g1, g2, g3, g4, g5, g6, g7, g8, g9⟩ := entry_message_ref hs hSurv h1 hl h5 hj1 hp hpf
+          obtain ⟨out, o1, o2⟩ := ih N (by omega) m2 q raw2 (body ++ [.message m2']) (skipBlankBlock s q).2 g6 g7 g8 g4 (by omega)
+          rw [step_none_entry hlt g1 (by intro c hc; cases hc), g5, o1]
+          refine ⟨.message m2' :: out, by simp, ?_⟩
+          rw [List.map_cons, jEntry_message, g2, o2, eraw, ee, assemble_message, g9]
+        · -- a Term
+          obtain ⟨t2', q, raw2, m2, g1, g2, g3, g4, g5, g6, g7, g8, g9⟩ := entry_term_ref hs hSurv h1 hl h5 hj1 hp hpf
+          obtain ⟨out, o1, o2⟩ := ih N (by omega) m2 q raw2 (body ++ [.term t2']) (skipBlankBlock s q).2 g6 g7 g8 g4 (by omega)
+          rw [step_none_entry hlt g1 (by intro c hc; cases hc), g5, o1]
+          refine ⟨.term t2' :: out, by simp, ?_⟩
+          rw [List.map_cons, jEntry_term, g2, o2, eraw, ee, assemble_term, g9]
+        · -- a comment
+          obtain ⟨r0, hm0, _, _⟩ := commentLine_inv h1
+          obtain ⟨⟨t0, et0⟩, hL⟩ := commentMarker_inv hm0
+          have h35 : s[p]? = some 35 := rest_head et0
+          have hhl : headLevel raw = l := by rw [eraw, ee]; exact headLevel_mkC hL _ _
+          obtain ⟨spans, raw1', q, p1, m1, a1, a2, a3, a4, a5, a6, a7, a8, a9, a10⟩ :=
+            comment_run hs sf hL (s.size - p + 1) m p 0 [] raw hp (Nat.le_refl _) hraw0 hj (Or.inr ⟨rfl, hhl⟩)
+          have hpp1 := a9 rfl
+          cases spans with
+          | nil => simp [runItems] at a1; rw [a1] at hhl; exact absurd hhl a6
+          | cons sp sps =>
+            have hgc : getComment s p = .ok (sp :: sps, l) q := by
+              unfold getComment; rw [a2]; simp
+            have hge := getEntry_comment (pf := pf) h35 hgc hL
+            obtain ⟨raw2, m2, b1, b2, b3, b4, b5, b6⟩ := blank_after_comment a3 a5 a8 a10
+            have hpq : p < q := by
+              rcases a10 with ⟨e1, _⟩ | ⟨e1, e2, _⟩
+              · omega
+              · have : p ≠ q := by intro hh; subst hh; rw [h35] at e2; cases e2
+                omega
+            have hasm : assemble raw = assemble (some (mkC l ((sp :: sps).map (spanBytes s))) :: raw1') := by
+              rw [a1, assemble_run]
+            have hskip : assemble raw1' = assemble raw2 :=
+              assemble_skip (by rcases b6 with ⟨e, _⟩ | ⟨e, _⟩ <;> simp [e])
+            rcases hL with el | el | el
+            · -- a `#` comment stays pending
+              subst el
+              simp only [mkCS] at hge
+              rw [step_none_comment hlt hge]
+              obtain ⟨N', eN⟩ : ∃ N', N = N' + 1 := ⟨N - 1, by omega⟩
+              subst eN
+              by_cases hlt' : (skipBlankBlock s q).1 < s.size
+              · obtain ⟨b', hb', hrest'⟩ := rest_cons_of_lt hlt'
+                have b1' := b1
+                rw [hrest'] at b1 b3
+                obtain ⟨m3, e2, r5', raw3, em3, he2, eraw2, h53, hj3⟩ := raw_entry_inv b1 (canon_cons_blank b3) b2
+                rw [← hrest'] at he2 b3
+                -- the route when the comment does not attach
+                have hflush : attachHead raw1' = false →
+                    (∀ mm qq, getEntry s pf (skipBlankBlock s q).1 = .ok (.message mm) qq → 2 ≤ (skipBlankBlock s q).2) →
+                    (∀ tt qq, getEntry s pf (skipBlankBlock s q).1 = .ok (.term tt) qq → 2 ≤ (skipBlankBlock s q).2) →
+                    ∃ out, parseLoop s pf (N' + 1) body [] (some (sp :: sps)) (skipBlankBlock s q).2 (skipBlankBlock s q).1 =
+                        .done (body ++ out, []) ∧ out.map (jEntry s) = assemble raw := by
+                  intro hat hf1 hf2
+                  obtain ⟨out, o1, o2⟩ := ih (N' + 1) (by omega) m2 (skipBlankBlock s q).1 raw2 (body ++ [.comment (sp :: sps)])
+                    (skipBlankBlock s q).2 b1' b2 b3 b5 (by omega)
+                  rw [step_flush hlt' hf1 hf2, o1]
+                  refine ⟨.comment (sp :: sps) :: out, by simp, ?_⟩
+                  rw [List.map_cons, jEntry_comment, o2, hasm]
+                  simp only [mkC]
+                  rw [assemble_comment_other _ _ a6 hat, hskip]
+                have hne2 : raw2 ≠ [] := by rw [eraw2]; simp
+                rcases entryP_inv he2 with ⟨msg, r4, h1', hl', ee'⟩ | ⟨trm, r4, h1', hl', ee'⟩ | ⟨l', c', h1', ee'⟩
+                · by_cases hc : (skipBlankBlock s q).2 < 2
+                  · have e12 : raw1' = raw2 := by
+                      rcases b6 with ⟨e, _⟩ | ⟨_, e | e⟩
+                      · exact e
+                      · omega
+                      · exact absurd e hne2
+                    obtain ⟨m2', q2, raw4, m4, g1, g2, g3, g4, g5, g6, g7, g8, g9⟩ :=
+                      entry_message_ref hs hSurv h1' hl' h53 hj3 b5 hpf
+                    obtain ⟨out, o1, o2⟩ := ih N' (by omega) m4 q2 raw4 (body ++ [.message { m2' with comment := some (sp :: sps) }])
+                      (skipBlankBlock s q2).2 g6 g7 g8 g4 (by omega)
+                    rw [step_attach_message hlt' g1 hc, g5, o1]
+                    refine ⟨.message { m2' with comment := some (sp :: sps) } :: out, by simp, ?_⟩
+                    rw [List.map_cons, jEntry_message, jMsg_comment, g2, o2, hasm, e12, eraw2, ee']
+                    simp only [mkC]
+                    rw [assemble_comment_message, g9]
+                  · have e12 : raw1' = none :: raw2 := by
+                      rcases b6 with ⟨_, e⟩ | ⟨e, _⟩
+                      · omega
+                      · exact e
+                    exact hflush (by rw [e12]; rfl) (fun _ _ _ => by omega) (fun _ _ _ => by omega)
+                · by_cases hc : (skipBlankBlock s q).2 < 2
+                  · have e12 : raw1' = raw2 := by
+                      rcases b6 with ⟨e, _⟩ | ⟨_, e | e⟩
+                      · exact e
+                      · omega
+                      · exact absurd e hne2
+                    obtain ⟨t2', q2, raw4, m4, g1, g2, g3, g4, g5, g6, g7, g8, g9⟩ :=
+                      entry_term_ref hs hSurv h1' hl' h53 hj3 b5 hpf
+                    obtain ⟨out, o1, o2⟩ := ih N' (by omega) m4 q2 raw4 (body ++ [.term { t2' with comment := some (sp :: sps) }])
+                      (skipBlankBlock s q2).2 g6 g7 g8 g4 (by omega)
+                    rw [step_attach_term hlt' g1 hc, g5, o1]
+                    refine ⟨.term { t2' with comment := some (sp :: sps) } :: out, by simp, ?_⟩
+                    rw [List.map_cons, jEntry_term, jTerm_comment, g2, o2, hasm, e12, eraw2, ee']
+                    simp only [mkC]
+                    rw [assemble_comment_term, g9]
+                  · have e12 : raw1' = none :: raw2 := by
+                      rcases b6 with ⟨_, e⟩ | ⟨e, _⟩
+                      · omega
+                      · exact e
+                    exact hflush (by rw [e12]; rfl) (fun _ _ _ => by omega) (fun _ _ _ => by omega)
+                · obtain ⟨r0', hm0', _, _⟩ := commentLine_inv h1'
+                  obtain ⟨⟨t0', et0'⟩, _⟩ := commentMarker_inv hm0'
+                  have h35' : s[(skipBlankBlock s q).1]? = some 35 := rest_head et0'
+                  obtain ⟨k1, k2⟩ := getEntry_hash (pf := pf) h35'
+                  refine hflush ?_ (fun mm qq hh => absurd hh (k1 mm qq)) (fun tt qq hh => absurd hh (k2 tt qq))
+                  rcases b6 with ⟨e, _⟩ | ⟨e, _⟩
+                  · rw [e, eraw2, ee']; exact attachHead_mkC _ _ _
+                  · rw [e]; rfl
+              · -- the comment is the last thing in the source
+                rw [step_end (some (sp :: sps)) (by omega)]
+                refine ⟨[.comment (sp :: sps)], rfl, ?_⟩
+                have hnil : rest s (skipBlankBlock s q).1 = [] := rest_eq_nil_iff.mpr (by omega)
+                rw [hnil] at b1
+                have e2 := resourceRaw_nil b1
+                have hat : attachHead raw1' = false := by
+                  rcases b6 with ⟨e, _⟩ | ⟨e, _⟩
+                  · rw [e, e2]; rfl
+                  · rw [e]; rfl
+                rw [hasm]
+                simp only [mkC]
+                rw [assemble_comment_other _ _ a6 hat, hskip, e2, assemble_nil]
+                rfl
+            · -- `##`
+              subst el
+              simp only [mkCS] at hge
+              obtain ⟨out, o1, o2⟩ := ih N (by omega) m2 (skipBlankBlock s q).1 raw2 (body ++ [.groupComment (sp :: sps)])
+                (skipBlankBlock s q).2 b1 b2 b3 b5 (by omega)
+              rw [step_none_entry hlt hge (by intro c hc; cases hc), o1]
+              refine ⟨.groupComment (sp :: sps) :: out, by simp, ?_⟩
+              rw [List.map_cons, jEntry_groupComment, o2, hasm]
+              simp only [mkC]
+              rw [assemble_gc _ _ a6, hskip]
+            · -- `###`
+              subst el
+              simp only [mkCS] at hge
+              obtain ⟨out, o1, o2⟩ := ih N (by omega) m2 (skipBlankBlock s q).1 raw2 (body ++ [.resourceComment (sp :: sps)])
+                (skipBlankBlock s q).2 b1 b2 b3 b5 (by omega)
+              rw [step_none_entry hlt hge (by intro c hc; cases hc), o1]
+              refine ⟨.resourceComment (sp :: sps) :: out, by simp, ?_⟩
+              rw [List.map_cons, jEntry_resourceComment, o2, hasm]
+              simp only [mkC]
+              rw [assemble_rc _ _ a6, hskip]
+      · -- end of input
+        rw [step_end none (by omega)]
+        have hnil : rest s p = [] := rest_eq_nil_iff.mpr (by omega)
+        rw [hnil] at hraw
+        rw [resourceRaw_nil hraw]
+        exact ⟨[], by simp, by simp [assemble_nil]⟩
+
+
+/-! ## the whole resource -/
+
+def isJunkO : Option (Entry Bytes) → Bool
+  | some (.junk _) => true
+  | _ => false
+
+theorem hasJunk_cons (x : Option (Entry Bytes)) (X : List (Option (Entry Bytes))) :
+    hasJunk (x :: X) = (isJunkO x || hasJunk X) := by
+  cases x with
+  | none => simp [hasJunk, isJunkO]
+  | some e => cases e <;> simp [hasJunk, isJunkO]
+
+theorem hasJunk_dropBlanks (X : List (Option (Entry Bytes))) : (dropBlanks X).any isJunk = hasJunk X := by
+  induction X with
+  | nil => rfl
+  | cons x X ih =>
+    cases x with
+    | none => simp [dropBlanks, hasJunk_cons, isJunkO, ih]
+    | some e => cases e <;> simp [dropBlanks, hasJunk_cons, isJunkO, isJunk, ih]
+
+theorem hasJunk_attachComments (X : List (Option (Entry Bytes))) : hasJunk (attachComments X) = hasJunk X := by
+  fun_induction attachComments X
+  · rename_i c m rest ih; simp [hasJunk_cons, isJunkO, ih]
+  · rename_i c t rest ih; simp [hasJunk_cons, isJunkO, ih]
+  · rename_i e rest h1 h2 ih; simp [hasJunk_cons, ih]
+  · rfl
+
+theorem hasJunk_joinComments (X : List (Option (Entry Bytes))) : hasJunk (joinComments X) = hasJunk X := by
+  induction X with
+  | nil => rfl
+  | cons x r ih =>
+    cases x with
+    | none => simp [joinComments, hasJunk_cons, ih]
+    | some e =>
+      cases e with
+      | comment a =>
+        simp only [joinComments]
+        split
+        · rename_i b rest' heq; rw [heq] at ih; simpa [hasJunk_cons, isJunkO] using ih
+        · simp [hasJunk_cons, isJunkO, ih]
+      | groupComment a =>
+        simp only [joinComments]
+        split
+        · rename_i b rest' heq; rw [heq] at ih; simpa [hasJunk_cons, isJunkO] using ih
+        · simp [hasJunk_cons, isJunkO, ih]
+      | resourceComment a =>
+        simp only [joinComments]
+        split
+        · rename_i b rest' heq; rw [heq] at ih; simpa [hasJunk_cons, isJunkO] using ih
+        · simp [hasJunk_cons, isJunkO, ih]
+      | message m => simp [joinComments, hasJunk_cons, ih]
+      | term t => simp [joinComments, hasJunk_cons, ih]
+      | junk c => simp [joinComments, hasJunk_cons, ih]
+
+theorem hasJunk_assemble (X : List (Option (Entry Bytes))) : (assemble X).any isJunk = hasJunk X := by
+  rw [assemble, hasJunk_dropBlanks, hasJunk_attachComments, hasJunk_joinComments]
+
+/-- `skip_blank_block` lands where the grammar's optional blank block ends -/
+theorem rest_skipBlankBlock (s : Src) (p : Nat) (hp : p ≤ s.size) :
+    rest s (skipBlankBlock s p).1 = afterBlank (rest s p) := by
+  have hbb := blankBlock_eq_skipBlankBlock s p hp
+  simp only at hbb
+  cases hR : blankBlock (rest s p) with
+  | none =>
+    have hcan : Canon (rest s p) := Or.inr (nonBlankHead_of_scan_none _ _ 0 hR)
+    rw [skipBlankBlock_stay hp hcan]
+    simp [afterBlank, hR]
+  | some v =>
+    rw [hR] at hbb
+    split at hbb
+    · cases hbb
+    · injection hbb with hbb
+      simp [afterBlank, hR, hbb]
+
+/-- **C02, the whole-resource statement on the byte level.**  For a source that the grammar calls well-formed (its
+tree has no Junk) and that satisfies the side condition `Surv` (which excludes exactly the shape of the known
+finding F30), the parser model returns no error and its tree — spans resolved to bytes, adjacent text elements
+joined — IS the tree the grammar assigns. -/
+theorem parse_refines {s : Src} (hs : AsciiThenBoundary s) (hSurv : Surv s) (hwf : wellFormed s.toList = true) :
+    ∃ t, parse s = .done (t, []) ∧ SpecGrammar.parse s.toList = some (Resource.joinText (resolve s t)) := by
+  unfold wellFormed at hwf
+  rw [parse_eq_assemble] at hwf ⊢
+  cases hraw : resourceRaw (fuelFor s.toList) (s.toList.length + 1) s.toList with
+  | none => rw [hraw] at hwf; simp at hwf
+  | some raw =>
+    rw [hraw] at hwf
+    simp only [Option.map_some] at hwf ⊢
+    have hj : hasJunk raw = false := by
+      rw [← hasJunk_assemble]
+      simpa using hwf
+    have h0 : rest s 0 = s.toList := by simp [rest]
+    rw [← h0] at hraw
+    obtain ⟨raw', m', _, h', hcase⟩ := raw_skip_blank hraw
+    have hj' : hasJunk raw' = false := by
+      rcases hcase with ⟨e, _⟩ | ⟨e, _⟩
+      · rw [← e]; exact hj
+      · rw [e] at hj; exact hasJunk_tail hj
+    have hasm : assemble raw = assemble raw' := assemble_skip (by rcases hcase with ⟨e, _⟩ | ⟨e, _⟩ <;> simp [e])
+    have hp0 := (skipBlankBlock_after s 0).le_size (Nat.zero_le _)
+    rw [← rest_skipBlankBlock s 0 (Nat.zero_le _)] at h'
+    have hcan : Canon (rest s (skipBlankBlock s 0).1) := by
+      rw [rest_skipBlankBlock s 0 (Nat.zero_le _)]; exact canon_afterBlank _
+    obtain ⟨out, o1, o2⟩ := resource_loop hs hSurv (pf := exprFuel s) (by unfold exprFuel; omega) (s.size + 1) m'
+      (skipBlankBlock s 0).1 raw' [] 0 h' hj' hcan hp0 (by omega)
+    refine ⟨out, ?_, ?_⟩
+    · unfold FluentModel.Syntax.parse
+      simpa using o1
+    · rw [jRes_eq, o2, hasm]
+
 end FluentProofs.SpecResource
